@@ -264,6 +264,10 @@ else:
 def _histogramdd(
     sample, *, bins=10, range=None, density=None, weights=None, normed=None
 ):
+    if isinstance(sample, np.ndarray) and sample.ndim == 2:
+        # an (N, D) array holds one point per row (numpy's convention for
+        # arrays); the code below iterates over coordinates
+        sample = list(sample.T)
     range = _sanitize_range(range, units=[getattr(_, "units", None) for _ in sample])
     if NUMPY_VERSION >= Version("1.24"):
         counts, bins = np.histogramdd._implementation(
